@@ -11,8 +11,33 @@ for all geometry.
 from ..astq import AstDB
 from ..irdb import Module
 from ..engines.e5_errors import E5
+from ..engines import e2_state as e2
+from ..extract import AnalysisBroken
 
 LEVEL = "other"
+
+
+def _success_flag(db, chk, cfg):
+    """Execute's return value succeeded_ is re-armed (written) in every Execute before it is read, whatever happened to the
+    object before (AddReuseableData sets it to false); the only `false` stored during execution is AddLocalMaxPoly's."""
+    from ..astq import walk, kids, canon
+    for cls in (["ClipperBase", "Clipper64"], ["ClipperBase", "ClipperD"]):
+        eng = e2.E2(db, chk, cfg, cls)
+        execs = db.find(cls[-1] + "::Execute")
+        if len(execs) != 4:
+            raise AnalysisBroken("expected 4 Execute overloads in %s" % cls[-1])
+        for f in execs:
+            s = eng.summary(f, {}, {}, True)
+            ok = "succeeded_" not in s.ubd
+            chk.instance("SUCCESS.re-armed", {"function": f.qual, "sig": f.sig[:60], "cfg": cfg}, ok=ok)
+            if not ok:
+                chk.violation("SUCCESS.re-armed", f.qual, "succeeded_", "Execute can read succeeded_ before this execution has written it: a value "
+                              "left by an earlier call (AddReuseableData stores false) makes a valid operation report failure", f.where, cfg=cfg)
+    r = db.one("ClipperBase::Reset")
+    ok = "(succeeded_ = true)" in canon(r.body)
+    chk.instance("SUCCESS.re-armed", {"function": r.qual, "stores": "succeeded_ = true", "cfg": cfg}, ok=ok)
+    if not ok:
+        chk.violation("SUCCESS.re-armed", r.qual, "true", "Reset() no longer stores succeeded_ = true", r.where, cfg=cfg)
 
 
 def run(chk):
@@ -29,6 +54,7 @@ def run(chk):
     chk.rule("R5.c-boundary", "each exported function rejects exactly the out-of-range cliptype / fillrule / precision values before "
              "first use (rejection condition evaluated over the whole value domain) with a negative / null result")
     chk.rule("R6.noclip", "ExecuteInternal returns on ClipType::NoClip before calling anything that can reach NewOutRec")
+    chk.rule("SUCCESS.re-armed", "every Execute writes succeeded_ (= true, in Reset) before reading it")
     chk.rule("R7.validator-table", "CheckPrecisionRange accepts exactly [-MAX, MAX], otherwise sets the code, calls DoError and clamps")
     chk.rule("R7.zero-scale", "ScalePath reports a zero scale")
     chk.rule("R7.range-table", "ScalePaths<int64_t> rejects exactly the bounds that leave [min_coord, max_coord]")
@@ -44,6 +70,7 @@ def run(chk):
             e.rule_r2()
             e.rule_r3()
         chk.extra.setdefault("DoError_throws", {})[cfg] = e.doerror_throws
+        _success_flag(db, chk, cfg)
     n = len(cfgs)
     chk.floor("R1.validate-before-use", 22 * n)
     chk.floor("R4.range-checked-scaling", 10 * n)
